@@ -270,6 +270,8 @@ impl img::DiskImage for Dot2mg {
             // readers (including this one) insist on blocks matching the data for ProDOS order
             self.header.blocks = u32::to_le_bytes(self.raw_img.byte_capacity() as u32 / BLOCK_SIZE);
         }
+        // the header written here is always 64 bytes long, whatever a loaded file claimed
+        self.header.header_len = u16::to_le_bytes(64);
         self.header.data_offset = u32::to_le_bytes(64);
         self.header.comment_offset = u32::to_le_bytes(match rem_len { 0 => 0, _ => 64+buf_len });
         self.header.comment_len = u32::to_le_bytes(rem_len);
